@@ -2,8 +2,7 @@ SPEC = {
     "id": "C03",
     "props_module": "NDB.Props.C03",
     "corr_modules": ["NDB.Corr.C03"],
-    "theorems": ["C03_quiescent_consistent", "C03_stable_without_compaction", "C03_quiescent_snapshot_schedules", "C03_torn_refuted",
-                 "C03_torn_compaction_refuted", "C03_inplace_refuted"],
+    "theorems": ["C03_snapshot_consistent", "C03_inplace_refuted", "C03_unlocked_torn_refuted"],
     "allowed_axioms": [],
     "harness_pkg": "hx_conc",
     "harness_bin": "c03",
@@ -12,46 +11,45 @@ SPEC = {
     "trusted_base": [
         "Coq 8.16.1 kernel + vm_compute; coqchk re-check in the thorough tier",
         "axioms: none (Print Assumptions: Closed under the global context)",
-        "hand-written model Conc/Snapshot.v: commit = 4 publication steps, compaction = 7, snapshot acquisition = 7 field reads, "
-        "reads through the copied fields and the live property heap; tied to engine.rs/api.rs by the correspondence: for every driven "
-        "schedule every view every reader observed = the model's observation (torn and in-place effects included)",
+        "hand-written model Conc/Snapshot.v: commit = [WLog; WPublish], compaction = [CPersist; CSink; CLog; CPublish], snapshot = "
+        "[RAcquire], reads through the copied fields and the live property heap; a publication section and an acquisition are atomic "
+        "steps because both run under the engine's publish_lock (fix 68601a6). That the lock excludes the overlap is not part of the "
+        "Coq model; it is probed on the real code in every run (three probes: reader released while the writer is parked inside a "
+        "commit's / a compaction's publication section, writer released while a reader is parked inside its acquisition - the other "
+        "thread must stay blocked) and std's RwLock semantics is trusted",
+        "tied to engine.rs/api.rs by the correspondence: for every driven schedule every view every reader observed = the model's "
+        "observation, the driver's safe/unsafe classification = the model's ghost o_safe, and the implementation's safe observations = the "
+        "committed state, all evaluated inside Coq",
         "schedule points nervusdb_storage::verif::point (commit 3c4c040) and the baton scheduler of harness/hx_conc: one thread at a "
         "time between points; interleavings inside a segment (e.g. inside one B-tree insert) are not explored",
         "model restrictions: transactions create nodes, set one integer property per node and create relationships; no deletes, label "
-        "changes, index lookups, statistics; the property B-tree is a first-match association list (in-place overwrite = prepend)",
+        "changes, index lookups, statistics; the property B-tree is a first-match association list (in-place overwrite = prepend); "
+        "compaction sinks the published runs (the code sinks its clone of them taken under write_lock)",
     ],
     "assumptions": [
         "one writer at a time (the engine's write_lock, see C09/C35); any number of readers",
-        "the positive theorems hold on the sub-domains stated in Props/C03.v (acquisition with no writer step in flight; no compaction "
-        "sink step during the snapshot's lifetime); outside them the property is refuted (known findings K-C03-torn, K-C03-inplace)",
-        "Corr/C03.v `classify` decides the hypotheses of the conditional theorems per generated schedule INSIDE Coq (quiescent acquisition; "
-        "no sink step between acquisition and the read unless the property root was unset) and `ok` requires every read classified safe to "
-        "show exactly spec_of (firstn j h) on the implementation's own observations; the classifier itself is validated on the witnesses "
-        "but not proved equivalent to the theorems' hypotheses for arbitrary schedules",
-        "candidate repair of K-C03-torn prepared and tested but NOT applied (branch conc-c03-publish-lock-candidate in /repo, 20 unguarded "
-        "lines: a publish_lock RwLock held for writing across the publication steps of commit/compaction and for reading while a snapshot "
-        "copies the fields; nervusdb-storage, nervusdb lib, capi, smoke, t106 tests green): applying it requires the model and the driver to "
-        "treat the acquisition as blocking, which was not finished",
-        "schedule-level theorem C03_quiescent_snapshot_schedules: acquisition after j whole writer operations run alone, then EVERY "
-        "continuation schedule, no compaction among the remaining operations; a quiescent acquisition in the middle of an arbitrary "
-        "earlier interleaving with other readers is covered by the harness predicate but not by a Coq classifier over all schedules",
+        "C03_snapshot_consistent covers every schedule but only SAFE reads (no compaction sink step since the acquisition, or a snapshot "
+        "without property root); unsafe reads are the known finding K-C03-inplace (design-level: snapshots read through a B-tree that "
+        "compaction rewrites in place), recorded, not repaired",
+        "checkpoint = compaction in this code base; index creation and label creation are not interleaved in the model",
     ],
     "manifest": {
         "category": "proof",
-        "text": "REFUTED on the pinned tree, recorded as known findings (design-level, not repaired): snapshot acquisition copies six "
-                "fields without a common lock (K-C03-torn: node without labels/properties, relationships lost or doubled around "
-                "compaction) and reads properties through a B-tree that compaction rewrites in place (K-C03-inplace: a held snapshot "
-                "reads 5, 5, 6). Witness schedules by vm_compute, each reproduced on the real engine through cfg-guarded schedule points. "
-                "Proved for all histories: a snapshot acquired while no writer operation is in flight shows exactly the committed state "
-                "(refinement of runs/segments/heap to the abstract graph under every sequence of commits and compactions); proved for all "
-                "schedules: while no compaction sink step remains, a held snapshot's view never changes; combined at schedule level (quiescent acquisition, then every schedule without compaction: every observation is the committed state). Correspondence: all 495 "
-                "interleavings of one commit with one acquisition (thorough; every 4th in quick), sampled compaction interleavings, "
-                "generated histories with 1-2 readers; every observed view compared with the model in Coq.",
+        "text": "K-C03-torn is REPAIRED (fix 68601a6: commit and compaction hold publish_lock for writing across their publication steps, "
+                "snapshot creation holds it for reading while it copies the fields). Theorem for every history, every number of readers and "
+                "EVERY schedule: each observation made while no compaction sink step ran since the snapshot was acquired (or through a "
+                "snapshot without property root) is exactly the committed state after the j operations published at the acquisition, a "
+                "prefix of the history - every transaction completely or not at all. Still REFUTED and recorded (K-C03-inplace): a held "
+                "snapshot reads properties through a B-tree that a later compaction rewrites in place (5, 5, 6); witness by vm_compute, "
+                "reproduced on the real engine, the model flags exactly those reads as unsafe. The torn witnesses of the old unlocked "
+                "acquisition are kept as regression theorems (Conc/SnapshotUnlocked) and as lock probes on the real code. Correspondence: "
+                "lock probes, corpus, interleavings of commit-compact-commit-compact with one reader (all 455 when n>=600), generated "
+                "histories with 1-3 readers; views, safe flags and safe-read consistency compared inside Coq.",
         "design_ref": "DESIGN.md §5 C03",
-        "level_note": "Trusted: Coq kernel; hand-written step model tied by sampled correspondence; atomicity of segments between schedule "
-                      "points. Partial: no deletes/label changes/index reads in the model; checkpoint = compaction in this code base; "
-                      "index creation not interleaved.",
-        "technique": "Rocq proof (refinement invariant over all histories; invariant induction over all schedules) + vm_compute witnesses + "
-                     "deterministic baton scheduler over schedule points + vm_compute correspondence",
+        "level_note": "Trusted: Coq kernel; hand-written step model tied by sampled correspondence; atomicity of publication/acquisition "
+                      "under publish_lock (probed, not proved); atomicity of segments between schedule points. Partial: no deletes/label "
+                      "changes/index reads in the model.",
+        "technique": "Rocq proof (invariant induction over all schedules with ghost history; refinement of runs/segments/heap to the abstract "
+                     "graph) + vm_compute witnesses + deterministic baton scheduler with lock probes + vm_compute correspondence",
     },
 }
